@@ -237,6 +237,16 @@ func drive(env *fw.Env, b fw.Behaviour) *fw.Trace {
 		}
 		if t != nil && t.Status != fw.Realised {
 			k += ":" + t.Status
+			if os.Getenv("C16_DEBUG") != "" {
+				n := t.Note
+				if i := strings.Index(n, ": "); i >= 0 {
+					n = n[i+2:]
+				}
+				if len(n) > 60 {
+					n = n[:60]
+				}
+				k += " " + n
+			}
 		}
 		statMu.Lock()
 		statDur[k] += time.Since(t0)
